@@ -1,2 +1,1038 @@
-// Package c18 decides C18 (see DESIGN.md section 4). Not built yet.
+// Package c18 decides C18 (source files are selected by the documented build
+// constraints).
+//
+// spec/Constraints.tla is the reference: //go:build expression trees with
+// Eval, the documented tag environment of user and standard-library packages,
+// Go's file-name rule, "cgo files are never used", ".inc.js files are always
+// included".  spec/ConstraintsScen.tla makes TLC enumerate expressions of depth
+// <= 2 x file-name forms x environments x user tag sets together with the
+// predicted list (GoFiles, TestGoFiles, IgnoredGoFiles, JSFiles, none) of every
+// file, and checks properties of the reference itself.  This package writes
+// the files into package directories of a temporary module, loads every
+// directory with the real build.NewBuildContext(..).Import of /repo (in child
+// processes started in the module directory with the environment of the
+// scenario; standard-library selection is reached through GOPHERJS_GOROOT),
+// and compares the lists.  A sample of directories is also compiled and run:
+// every selected file registers itself in an init function, and the run-time
+// set must equal the predicted set.  spec/ConstraintsReal.tla evaluates the
+// same definitions on real standard-library directories.
+//
+// Specification guard: go/build/constraint evaluates every expression under
+// the specification's tag set; the standard library's go/build.MatchFile,
+// given the specification's tag set as plain build tags, decides name rule and
+// expression together.  Where a guard disagrees with the specification the
+// evaluation is discarded and counted.
 package c18
+
+import (
+	"encoding/json"
+	"fmt"
+	"go/build"
+	"go/build/constraint"
+	"io"
+	"math/rand"
+	"os"
+	"path/filepath"
+	"sort"
+	"strings"
+	"sync"
+	"sync/atomic"
+	"time"
+
+	"verif/core"
+	"verif/gjs"
+	"verif/reg"
+	"verif/tlcx"
+)
+
+func init() {
+	maybeWorker()
+	reg.Register("C18", "model_checking", Run)
+}
+
+// envSpec is one tag environment of the specification (Constraints!PkgTags).
+type envSpec struct {
+	Std    bool   `json:"std"`
+	GOOS   string `json:"goos"`
+	GOARCH string `json:"goarch"`
+}
+
+func (e envSpec) String() string {
+	k := "user package"
+	if e.Std {
+		k = "standard-library package"
+	}
+	return fmt.Sprintf("%s, process environment GOOS=%s GOARCH=%s", k, e.GOOS, e.GOARCH)
+}
+
+func (e envSpec) key() string {
+	k := "user"
+	if e.Std {
+		k = "std"
+	}
+	if e.GOOS != "js" || e.GOARCH != "ecmascript" {
+		k += "_env_" + e.GOOS + "_" + e.GOARCH
+	}
+	return k
+}
+
+var envs = []envSpec{
+	{false, "js", "ecmascript"}, // the default
+	{true, "js", "ecmascript"},
+	{false, "linux", "amd64"}, // GOOS/GOARCH set in the environment (documented transition behaviour of DefaultEnv)
+	{true, "linux", "amd64"},
+}
+
+var vocabulary = []string{"js", "ecmascript", "wasm", "linux", "amd64", "gc", "gccgo", "cgo", "gopherjs", "netgo", "purego",
+	"math_big_pure_go", "go1.1", "go1.20", "go1.21", "go1.23", "ignore", "u1", "u2"}
+
+var userBase = []string{"u1", "u2", "wasm", "go1.21"}
+
+func userSets() [][]string {
+	var out [][]string
+	for m := 0; m < 1<<len(userBase); m++ {
+		s := []string{}
+		for i, t := range userBase {
+			if m>>i&1 == 1 {
+				s = append(s, t)
+			}
+		}
+		out = append(out, s)
+	}
+	return out
+}
+
+// exprSpec is one enumerated expression.
+type exprSpec struct {
+	Text    string // "" = no //go:build line
+	EvMasks []int  // per environment: bit i = Eval under user tag set i
+	Bad     []int  // per environment: bit i = go/build/constraint disagrees with the specification (discard)
+	Invalid bool   // go/build/constraint cannot parse the text
+}
+
+// fileSpec is one file of the scenario with its predictions.
+type fileSpec struct {
+	Name  string
+	X     *exprSpec
+	On    string // list when selected
+	Off   string // list when not selected
+	Masks []int  // per environment: bit i = selected under user tag set i
+	Cgo   bool
+}
+
+func (f *fileSpec) incjs() bool  { return strings.HasSuffix(f.Name, ".inc.js") }
+func (f *fileSpec) hidden() bool { return f.Name[0] == '_' || f.Name[0] == '.' }
+func (f *fileSpec) selected(e, i int) bool {
+	return f.Masks[e]>>uint(i)&1 == 1
+}
+func (f *fileSpec) list(e, i int) string {
+	if f.selected(e, i) {
+		return f.On
+	}
+	return f.Off
+}
+
+func marker(name string) string {
+	var b strings.Builder
+	b.WriteString("M_")
+	for _, r := range name {
+		switch {
+		case r >= 'a' && r <= 'z', r >= 'A' && r <= 'Z', r >= '0' && r <= '9', r == '_':
+			b.WriteRune(r)
+		case r == '.':
+			b.WriteString("_dot_")
+		default:
+			fmt.Fprintf(&b, "_x%x_", r)
+		}
+	}
+	return b.String()
+}
+
+// content renders the file: a tiny file of package pkg with one marker
+// function; it registers itself at run time by printing its name.
+func (f *fileSpec) content(pkg string) string {
+	return render(pkg, f.Name, f.X.Text, f.Cgo)
+}
+
+func render(pkg, name, text string, cgo bool) string {
+	var b strings.Builder
+	if strings.HasSuffix(name, ".inc.js") {
+		if text != "" {
+			b.WriteString("//go:build " + text + "\n")
+		}
+		fmt.Fprintf(&b, "console.log(\"R %s/%s\");\n", pkg, name)
+		return b.String()
+	}
+	if text != "" {
+		b.WriteString("//go:build " + text + "\n\n")
+	}
+	b.WriteString("package " + pkg + "\n\n")
+	if cgo {
+		b.WriteString("import \"C\"\n\n")
+	}
+	fmt.Fprintf(&b, "func init() { println(\"R %s/%s\") }\n\nfunc %s() {}\n", pkg, name, marker(name))
+	return b.String()
+}
+
+type dirSpec struct {
+	name  string
+	files []*fileSpec
+}
+
+// expectation of one directory under (env, user set)
+func (d *dirSpec) expect(e, i int) (lists map[string]string, loadable bool) {
+	lists = make(map[string]string, len(d.files))
+	for _, f := range d.files {
+		l := f.list(e, i)
+		lists[f.Name] = l
+		if l == "GoFiles" || l == "TestGoFiles" {
+			loadable = true
+		}
+	}
+	return
+}
+
+func observed(r importResult) map[string]string {
+	m := map[string]string{}
+	put := func(l string, names []string) {
+		for _, n := range names {
+			if old, ok := m[n]; ok {
+				m[n] = old + "+" + l
+			} else {
+				m[n] = l
+			}
+		}
+	}
+	put("GoFiles", r.Go)
+	put("TestGoFiles", r.Test)
+	put("TestGoFiles", r.XTest) // external test files: the specification does not distinguish them
+	put("IgnoredGoFiles", r.Ignored)
+	put("CgoFiles", r.Cgo)
+	put("JSFiles", r.JS)
+	return m
+}
+
+// ---------------------------------------------------------------------------
+// specification guard
+
+type guard struct {
+	tags  [][]map[string]bool // [env][userset] -> the specification's tag set
+	lists [][][]string        // the same as sorted lists (BuildTags of the guard context)
+	nC    int64               // go/build/constraint evaluations
+	nM    int64               // go/build.MatchFile evaluations
+}
+
+// checkExpr evaluates the expression with go/build/constraint under every tag
+// set of the specification and marks the disagreements.
+func (g *guard) checkExpr(x *exprSpec) (bad int) {
+	x.Bad = make([]int, len(g.tags))
+	if x.Text == "" {
+		for e := range g.tags {
+			if x.EvMasks[e] != 1<<uint(len(g.tags[e]))-1 {
+				x.Bad[e] = 1<<uint(len(g.tags[e])) - 1
+				bad += len(g.tags[e])
+			}
+		}
+		return
+	}
+	expr, err := constraint.Parse("//go:build " + x.Text)
+	x.Invalid = err != nil
+	for e := range g.tags {
+		for i := range g.tags[e] {
+			ok := false
+			if err == nil {
+				tags := g.tags[e][i]
+				ok = expr.Eval(func(tag string) bool { return tags[tag] }) == (x.EvMasks[e]>>uint(i)&1 == 1)
+			}
+			if !ok {
+				x.Bad[e] |= 1 << uint(i)
+				bad++
+			}
+		}
+	}
+	atomic.AddInt64(&g.nC, int64(len(g.tags)*len(g.tags[0])))
+	return
+}
+
+// matchFile asks the standard library whether the file (name and content)
+// matches a build context whose satisfied tags are exactly the given list.
+func (g *guard) matchFile(name, content string, tags []string) (bool, error) {
+	ctxt := build.Context{BuildTags: tags, CgoEnabled: false,
+		OpenFile: func(string) (io.ReadCloser, error) { return io.NopCloser(strings.NewReader(content)), nil }}
+	atomic.AddInt64(&g.nM, 1)
+	return ctxt.MatchFile("/c18guard", name)
+}
+
+// listByGuard is the list the guard assigns (Go files only).
+func (g *guard) listByGuard(f *fileSpec, tags []string) (string, error) {
+	if f.hidden() {
+		return "none", nil
+	}
+	m, err := g.matchFile(f.Name, f.content("p"), tags)
+	if err != nil {
+		return "", err
+	}
+	switch {
+	case !m || f.Cgo:
+		return "IgnoredGoFiles", nil
+	case strings.HasSuffix(f.Name, "_test.go"):
+		return "TestGoFiles", nil
+	}
+	return "GoFiles", nil
+}
+
+// nameFree reports whether the file name constrains nothing according to the
+// standard library (an empty tag set matches a file of that name without constraint).
+func nameFree(name string) bool {
+	ctxt := build.Context{OpenFile: func(string) (io.ReadCloser, error) { return io.NopCloser(strings.NewReader("package p\n")), nil }}
+	m, err := ctxt.MatchFile("/c18guard", name)
+	return err == nil && m
+}
+
+// ---------------------------------------------------------------------------
+
+type mismatch struct {
+	key     string
+	summary string
+	files   map[string]string
+	count   int
+}
+
+type state struct {
+	c      *core.Ctx
+	g      *guard
+	usets  [][]string
+	mu     sync.Mutex
+	mism   map[string]*mismatch
+	evals  int64
+	disc   int64
+	calls  int64
+	failed int32
+	fullGd int // run the MatchFile guard on 1 of fullGd evaluations
+	st     *setup
+}
+
+func (s *state) infra(err error) {
+	atomic.StoreInt32(&s.failed, 1)
+	s.c.Infra(err)
+}
+
+func (s *state) record(key, summary string, files func() map[string]string) {
+	s.mu.Lock()
+	defer s.mu.Unlock()
+	m := s.mism[key]
+	if m == nil {
+		m = &mismatch{key: key, summary: summary, files: files()}
+		s.mism[key] = m
+	}
+	m.count++
+}
+
+func (s *state) mismatches() int {
+	s.mu.Lock()
+	defer s.mu.Unlock()
+	return len(s.mism)
+}
+
+func exprTags(text string) []string {
+	if text == "" {
+		return nil
+	}
+	x, err := constraint.Parse("//go:build " + text)
+	if err != nil {
+		return nil
+	}
+	set := map[string]bool{}
+	var walk func(constraint.Expr)
+	walk = func(x constraint.Expr) {
+		switch x := x.(type) {
+		case *constraint.TagExpr:
+			set[x.Tag] = true
+		case *constraint.NotExpr:
+			walk(x.X)
+		case *constraint.AndExpr:
+			walk(x.X)
+			walk(x.Y)
+		case *constraint.OrExpr:
+			walk(x.X)
+			walk(x.Y)
+		}
+	}
+	walk(x)
+	var out []string
+	for t := range set {
+		out = append(out, t)
+	}
+	return out
+}
+
+// culprit finds the tags whose membership in the tag set, if flipped, makes the
+// standard library assign the observed list (diagnostic only: it names the group).
+func (s *state) culprit(f *fileSpec, e, i int, obs string) string {
+	if f.incjs() {
+		return "incjs"
+	}
+	cand := map[string]bool{}
+	for _, t := range exprTags(f.X.Text) {
+		cand[t] = true
+	}
+	base := strings.TrimSuffix(f.Name, ".go")
+	for _, p := range strings.Split(base, "_")[1:] {
+		if p != "" && p != "test" {
+			cand[p] = true
+		}
+	}
+	var names []string
+	for t := range cand {
+		names = append(names, t)
+	}
+	sort.Strings(names)
+	var hit []string
+	for _, t := range names {
+		var flipped []string
+		had := false
+		for _, u := range s.g.lists[e][i] {
+			if u == t {
+				had = true
+				continue
+			}
+			flipped = append(flipped, u)
+		}
+		if !had {
+			flipped = append(flipped, t)
+		}
+		if l, err := s.g.listByGuard(f, flipped); err == nil && l == obs {
+			if had {
+				hit = append(hit, "-"+t)
+			} else {
+				hit = append(hit, "+"+t)
+			}
+		}
+	}
+	if f.Cgo {
+		hit = append(hit, "cgofile")
+	}
+	if len(hit) == 0 {
+		return "unexplained"
+	}
+	return strings.Join(hit, ",")
+}
+
+// scenarioFiles is the replay form of (directory, environment, tags).
+func scenarioFiles(env envSpec, tags []string, how string, dir string, files map[string]string, expect map[string]string, extra map[string]any) map[string]string {
+	m := map[string]any{"env": env, "tags": tags, "how": how, "dir": dir, "files": files, "expect": expect}
+	for k, v := range extra {
+		m[k] = v
+	}
+	b, _ := json.MarshalIndent(m, "", " ")
+	out := map[string]string{"scenario.json": string(b) + "\n"}
+	for n, c := range files {
+		out[filepath.Join("pkg", n)] = c
+	}
+	return out
+}
+
+// compare checks one Import result against the prediction.
+func (s *state) compare(d *dirSpec, e, i int, r importResult, how string) {
+	exp, loadable := d.expect(e, i)
+	env := envs[e]
+	tags := s.usets[i]
+	ctxDesc := fmt.Sprintf("%s, -tags %q, %s", env, strings.Join(tags, ","), how)
+	whole := func(extra map[string]any) map[string]string {
+		fl := map[string]string{}
+		for _, f := range d.files {
+			fl[f.Name] = f.content(d.name)
+		}
+		return scenarioFiles(env, tags, how, d.name, fl, exp, extra)
+	}
+	if r.Err != "" {
+		if r.NoGo && !loadable {
+			atomic.AddInt64(&s.evals, int64(len(d.files)))
+			return
+		}
+		// the guard must agree about loadability
+		gl := false
+		for _, f := range d.files {
+			if !f.incjs() {
+				if l, err := s.g.listByGuard(f, s.g.lists[e][i]); err == nil && (l == "GoFiles" || l == "TestGoFiles") {
+					gl = true
+					break
+				}
+			}
+		}
+		if gl != loadable {
+			atomic.AddInt64(&s.disc, int64(len(d.files)))
+			return
+		}
+		s.record(env.key()+":import_error", fmt.Sprintf("%s: Import failed although the specification predicts loadable=%v: %s", ctxDesc, loadable, r.Err),
+			func() map[string]string { return whole(map[string]any{"error": r.Err}) })
+		return
+	}
+	if !loadable {
+		s.record(env.key()+":loaded_without_go_files", fmt.Sprintf("%s: Import succeeded (GoFiles=%v TestGoFiles=%v) although no Go file of the directory is selected", ctxDesc, r.Go, r.Test),
+			func() map[string]string { return whole(map[string]any{"observed": observed(r)}) })
+		return
+	}
+	if r.Goroot != env.Std {
+		s.infra(fmt.Errorf("%s: package %s reported Goroot=%v (the scenario set-up did not take effect)", ctxDesc, d.name, r.Goroot))
+		return
+	}
+	obs := observed(r)
+	for _, f := range d.files {
+		want := exp[f.Name]
+		got, ok := obs[f.Name]
+		if !ok {
+			got = "none"
+		}
+		delete(obs, f.Name)
+		// specification guard (1): go/build/constraint on the expression (done when the scenario was read)
+		if f.X.Bad[e]>>uint(i)&1 == 1 {
+			atomic.AddInt64(&s.disc, 1)
+			continue
+		}
+		// specification guard (2): go/build.MatchFile under the specification's tag set
+		full := want != got || (s.fullGd > 0 && (hash(f.Name)+e*16+i)%s.fullGd == 0)
+		if full && !f.incjs() {
+			l, err := s.g.listByGuard(f, s.g.lists[e][i])
+			if err != nil || l != want {
+				atomic.AddInt64(&s.disc, 1)
+				continue
+			}
+		}
+		atomic.AddInt64(&s.evals, 1)
+		if want == got {
+			continue
+		}
+		cp := s.culprit(f, e, i, got)
+		key := fmt.Sprintf("%s:%s_as_%s:%s", env.key(), want, got, cp)
+		f := f
+		s.record(key, fmt.Sprintf("%s: file %s with constraint %q must be in %s, Import reported %s (differing tag: %s)", ctxDesc, f.Name, f.X.Text, want, got, cp),
+			func() map[string]string {
+				fl := map[string]string{f.Name: f.content(d.name), "zz_anchor.go": render(d.name, "zz_anchor.go", "", false)}
+				ex := map[string]string{f.Name: want, "zz_anchor.go": "GoFiles"}
+				out := scenarioFiles(env, tags, how, d.name, fl, ex, map[string]any{"file": f.Name, "constraint": f.X.Text, "spec_tags": s.g.lists[e][i], "observed": got})
+				out["expected.txt"] = f.Name + ": " + want + "\n"
+				out["observed.txt"] = f.Name + ": " + got + "\n"
+				return out
+			})
+	}
+	for n, l := range obs {
+		n, l := n, l
+		s.record(env.key()+":unknown_file_reported", fmt.Sprintf("%s: Import reported %s in %s, which is not a file of the scenario", ctxDesc, n, l),
+			func() map[string]string { return whole(map[string]any{"observed": observed(r)}) })
+	}
+}
+
+func hash(s string) int {
+	h := 0
+	for i := 0; i < len(s); i++ {
+		h = (h*131 + int(s[i])) & 0xFFFFFF
+	}
+	return h
+}
+
+// setup creates the module, the GOROOT-shaped tree whose src/vstd is the
+// module directory, and the worker pools (one per environment of `envs`).
+type setup struct {
+	modDir, fakeRoot string
+	pools            []*wpool
+}
+
+func newSetup(c *core.Ctx, nw int) (*setup, error) {
+	st := &setup{modDir: filepath.Join(c.Scratch, "mod"), fakeRoot: filepath.Join(c.Scratch, "goroot")}
+	if err := gjs.WriteModule(st.modDir, "vp"); err != nil {
+		return nil, err
+	}
+	if err := os.MkdirAll(filepath.Join(st.fakeRoot, "src"), 0o755); err != nil {
+		return nil, err
+	}
+	if err := os.Symlink(st.modDir, filepath.Join(st.fakeRoot, "src", "vstd")); err != nil {
+		return nil, err
+	}
+	for _, e := range envs {
+		var env []string
+		if e.Std {
+			env = append(env, "GOPHERJS_GOROOT="+st.fakeRoot)
+		}
+		if e.GOOS != "js" || e.GOARCH != "ecmascript" {
+			env = append(env, "GOOS="+e.GOOS, "GOARCH="+e.GOARCH)
+		}
+		st.pools = append(st.pools, newWPool(e.key(), st.modDir, nw, env...))
+	}
+	return st, nil
+}
+
+func (st *setup) close() {
+	for _, p := range st.pools {
+		p.close()
+	}
+}
+
+func (st *setup) job(e int, dir string, tagsets [][]string) (importJob, string) {
+	if envs[e].Std {
+		return importJob{Path: "vstd/" + dir, SrcDir: "", TagSets: tagsets},
+			"Import(\"vstd/" + dir + "\", \"\", 0) with GOPHERJS_GOROOT pointing at a tree that contains src/vstd"
+	}
+	return importJob{Path: ".", SrcDir: filepath.Join(st.modDir, dir), TagSets: tagsets}, "Import(\".\", dir, 0)"
+}
+
+// Run is the C18 check.
+func Run(c *core.Ctx, pool *gjs.Pool) {
+	if rp := os.Getenv("VERIF_REPLAY"); rp != "" {
+		replay(c, rp)
+		return
+	}
+	c.Assumef("the known GOOS/GOARCH lists of the go command (go/build of the harness toolchain) are the reference for file-name suffixes; 'ecmascript' is not a known architecture, so a suffix _ecmascript constrains nothing")
+	c.Assumef("&& and || are enumerated over unordered operand pairs; TLC checks on every enumerated expression that operand order, De Morgan and double negation do not change Eval, and VERIF_SEED decides the order in which operands are written")
+	c.Assumef(".inc.js inclusion has no independent reference implementation: the rule is the one documented on build.Import (all *.inc.js files except those starting with _ or .)")
+	c.Assumef("GOOS/GOARCH set in the process environment replace js/ecmascript for user packages (documented on build.DefaultEnv); standard-library packages stay js/wasm")
+	usets := userSets()
+	rng := rand.New(rand.NewSource(c.Seed))
+	mod := c.Pick(64, 1)   // depth-2 binary expressions: 1 of mod (seeded) / all
+	xmod := c.Pick(4, 1)   // depth<=1 expressions crossed with the further file-name forms: 1 of xmod / all
+	nforms := c.Pick(3, 9) // core file-name forms per depth-2 binary expression (rotating window) / all nine
+	params := map[string]any{
+		"voc": vocabulary, "usersets": usets, "envs": envs,
+		"mod": mod, "salt": int(c.Seed%1000) + 1, "flip": c.Seed%2 == 0, "min": (c.Seed/2)%2 == 1, "out": "scen",
+		"xmod": xmod, "nforms": nforms,
+	}
+	pj, _ := json.Marshal(params)
+	nw := c.Workers / 4
+	if nw < 1 {
+		nw = 1
+	}
+	if nw > 3 {
+		nw = 3
+	}
+	st, err := newSetup(c, nw)
+	if err != nil {
+		c.Infra(err)
+		return
+	}
+	defer st.close()
+	g := &guard{}
+	s := &state{c: c, g: g, usets: usets, mism: map[string]*mismatch{}, fullGd: c.Pick(1, 16), st: st}
+	// the real standard-library directories are read and predicted (second TLC run) meanwhile
+	realReady := make(chan *realScen, 1)
+	go func() { realReady <- s.realPrepare() }()
+	defer func() { <-realReady }()
+	cfg := "SPECIFICATION Spec\nINVARIANT Emit\nINVARIANT SelectedAgrees\nINVARIANT Algebra\nINVARIANT Independence\nINVARIANT Clauses\nCHECK_DEADLOCK FALSE\n"
+	tw := 8
+	if c.Workers < tw {
+		tw = c.Workers
+	}
+	r, err := tlcx.Run(c, tlcx.Opts{Module: "ConstraintsScen", Cfg: cfg, Workers: tw, Timeout: 60 * time.Minute, HeapMB: 6144,
+		Files: map[string]string{"c18_params.json": string(pj)}})
+	if !tlcx.MustComplete(c, r, err, "ConstraintsScen") {
+		return
+	}
+	c.Phase("tlc_scen")
+	c.Set("checker_cmd", "tlc ConstraintsScen (INVARIANT Emit SelectedAgrees Algebra Independence Clauses; ASSUME environment facts and small-universe algebra); tlc ConstraintsReal (INVARIANT Emit EnvBlind)")
+
+	// environment table
+	{
+		var table [][][]string
+		n := 0
+		err := tlcx.ReadNDJSON(filepath.Join(r.Dir, "scen.env.ndjson"), func(raw json.RawMessage) error {
+			var inner string
+			if err := json.Unmarshal(raw, &inner); err != nil {
+				return err
+			}
+			n++
+			return json.Unmarshal([]byte(inner), &table)
+		})
+		if err != nil || n != 1 || len(table) != len(envs) {
+			c.Infra(fmt.Errorf("environment table of ConstraintsScen unreadable: %v (lines=%d envs=%d)", err, n, len(table)))
+			return
+		}
+		for e := range table {
+			if len(table[e]) != len(usets) {
+				c.Infra(fmt.Errorf("environment table: %d user sets, want %d", len(table[e]), len(usets)))
+				return
+			}
+			var tm []map[string]bool
+			var tl [][]string
+			for i := range table[e] {
+				m := map[string]bool{}
+				for _, t := range table[e][i] {
+					m[t] = true
+				}
+				l := append([]string{}, table[e][i]...)
+				sort.Strings(l)
+				tm = append(tm, m)
+				tl = append(tl, l)
+			}
+			g.tags = append(g.tags, tm)
+			g.lists = append(g.lists, tl)
+		}
+	}
+
+	// scenario files
+	files, _ := filepath.Glob(filepath.Join(r.Dir, "scen.*.ndjson"))
+	sort.Strings(files)
+	var all []*fileSpec
+	var exprs []*exprSpec
+	for _, fn := range files {
+		if strings.HasSuffix(fn, "scen.env.ndjson") {
+			continue
+		}
+		err := tlcx.ReadNDJSON(fn, func(raw json.RawMessage) error {
+			var inner string
+			if err := json.Unmarshal(raw, &inner); err != nil {
+				return err
+			}
+			var rec []json.RawMessage
+			if err := json.Unmarshal([]byte(inner), &rec); err != nil {
+				return err
+			}
+			if len(rec) != 3 {
+				return fmt.Errorf("record of %d elements", len(rec))
+			}
+			x := &exprSpec{}
+			if err := json.Unmarshal(rec[0], &x.Text); err != nil {
+				return err
+			}
+			if err := json.Unmarshal(rec[1], &x.EvMasks); err != nil || len(x.EvMasks) != len(envs) {
+				return fmt.Errorf("eval masks of %q: %v", x.Text, err)
+			}
+			var fs [][]json.RawMessage
+			if err := json.Unmarshal(rec[2], &fs); err != nil {
+				return err
+			}
+			exprs = append(exprs, x)
+			for _, t := range fs {
+				if len(t) != 5 {
+					return fmt.Errorf("file tuple of %d elements", len(t))
+				}
+				f := &fileSpec{X: x}
+				if err := json.Unmarshal(t[0], &f.Name); err != nil {
+					return err
+				}
+				json.Unmarshal(t[1], &f.On)
+				json.Unmarshal(t[2], &f.Off)
+				if err := json.Unmarshal(t[3], &f.Masks); err != nil || len(f.Masks) != len(envs) {
+					return fmt.Errorf("masks of %s: %v", f.Name, err)
+				}
+				if err := json.Unmarshal(t[4], &f.Cgo); err != nil {
+					return err
+				}
+				all = append(all, f)
+			}
+			return nil
+		})
+		if err != nil {
+			c.Infra(fmt.Errorf("decode %s: %v", fn, err))
+			return
+		}
+	}
+	if len(all) == 0 {
+		c.Infra(fmt.Errorf("ConstraintsScen emitted no files"))
+		return
+	}
+	// specification guard (1) for every expression under every tag set
+	badExpr := make([]int, len(exprs))
+	c.ParMap(len(exprs), func(k int) { badExpr[k] = g.checkExpr(exprs[k]) })
+	nbad := 0
+	for _, b := range badExpr {
+		nbad += b
+	}
+	{
+		kept := all[:0]
+		for _, f := range all {
+			if f.X.Invalid { // the specification wrote something that is not a //go:build expression
+				atomic.AddInt64(&s.disc, int64(len(envs)*len(usets)))
+				continue
+			}
+			kept = append(kept, f)
+		}
+		all = kept
+	}
+	c.Set("expressions", len(exprs))
+	c.Set("expression_evaluations_rejected_by_go_build_constraint", nbad)
+	c.Set("files", len(all))
+	c.Set("exhaustive", mod == 1 && xmod == 1 && nforms == 9)
+	c.Set("rule", fmt.Sprintf("TLC enumerates //go:build expressions of depth <= 2 over %d tags (operands of && and || as unordered pairs, no double negation; depth-2 binary expressions kept iff (31i+17j+7op+salt) %% %d = 0) x %d of 9 core file-name forms (all 9 for depth <= 1 and negations), 1 of %d depth<=1 expressions x 24 further forms (test files, reversed and unknown suffixes, hidden files, cgo files, .inc.js files) and OS-named stems; every file is predicted under %d environments x %d user tag sets; an evaluation is one (file, environment, user tag set) compared with a real Import; distinct = distinct (file name, constraint) pairs with a constraint or a constraining name", len(vocabulary), mod, nforms, xmod, len(envs), len(usets)))
+	for _, f := range all {
+		if f.X.Text != "" || !nameFree(f.Name) {
+			c.Distinct(f.Name + "|" + f.X.Text)
+		}
+	}
+	c.Phase("decode_guard")
+
+	// directories: ~50 files each, file names unique inside a directory
+	rng.Shuffle(len(all), func(i, j int) { all[i], all[j] = all[j], all[i] })
+	const perDir = 50
+	ndirs := (len(all) + perDir - 1) / perDir
+	dirs := make([]*dirSpec, ndirs)
+	for i := range dirs {
+		dirs[i] = &dirSpec{name: fmt.Sprintf("p%05d", i)}
+	}
+	{
+		nth := map[string]int{}
+		k, dropped := 0, 0
+		for _, f := range all {
+			if isStemName(f.Name) {
+				// names that occur many times (js.go, linux.go, ...): the n-th one goes to directory n
+				n := nth[f.Name]
+				nth[f.Name] = n + 1
+				if n >= ndirs {
+					dropped++
+					continue
+				}
+				dirs[n].files = append(dirs[n].files, f)
+				continue
+			}
+			dirs[k%ndirs].files = append(dirs[k%ndirs].files, f)
+			k++
+		}
+		c.Set("files_dropped_name_collision", dropped)
+	}
+	// directories in which no Go file is selected under the default environments
+	// (Import must fail with NoGoError there)
+	{
+		var never []*fileSpec
+		for _, f := range all {
+			if !f.incjs() && !f.hidden() && f.Masks[0] == 0 && f.Masks[1] == 0 && !isStemName(f.Name) {
+				never = append(never, f)
+			}
+		}
+		for k := 0; k < 3 && len(never) >= 8*(k+1); k++ {
+			dirs = append(dirs, &dirSpec{name: fmt.Sprintf("n%05d", k), files: never[8*k : 8*k+8]})
+		}
+	}
+	c.Set("directories", len(dirs))
+
+	writeDir := func(d *dirSpec) error {
+		p := filepath.Join(st.modDir, d.name)
+		if err := os.MkdirAll(p, 0o755); err != nil {
+			return err
+		}
+		for _, f := range d.files {
+			if err := os.WriteFile(filepath.Join(p, f.Name), []byte(f.content(d.name)), 0o644); err != nil {
+				return err
+			}
+		}
+		return nil
+	}
+	importDir := func(d *dirSpec, e int) {
+		j, how := st.job(e, d.name, usets)
+		res, err := st.pools[e].call(j)
+		if err != nil {
+			s.infra(err)
+			return
+		}
+		atomic.AddInt64(&s.calls, int64(len(res)))
+		for i := range res {
+			s.compare(d, e, i, res[i], how)
+		}
+	}
+	// batches of directories: write, load under every environment, remove.
+	// The first batch is written up front and stays for the import-path stage.
+	const batch = 32
+	nb := (len(dirs) + batch - 1) / batch
+	first := dirs[:min(batch, len(dirs))]
+	for _, d := range first {
+		if err := writeDir(d); err != nil {
+			c.Infra(err)
+			return
+		}
+	}
+	const envEvery = 4 // the environments with GOOS/GOARCH set are used on every 4th directory
+	var wg sync.WaitGroup
+	stage := func(name string, f func()) {
+		wg.Add(1)
+		go func() {
+			defer wg.Done()
+			t0 := time.Now()
+			f()
+			c.Set("stage_s_"+name, float64(int(time.Since(t0).Seconds()*10))/10)
+		}()
+	}
+	stage("import", func() {
+		c.ParMap(nb, func(b int) {
+			if atomic.LoadInt32(&s.failed) != 0 {
+				return
+			}
+			lo, hi := b*batch, (b+1)*batch
+			if hi > len(dirs) {
+				hi = len(dirs)
+			}
+			if b != 0 {
+				for _, d := range dirs[lo:hi] {
+					if err := writeDir(d); err != nil {
+						s.infra(err)
+						return
+					}
+				}
+			}
+			for k, d := range dirs[lo:hi] {
+				for e := range envs {
+					if (envs[e].GOOS != "js") && (lo+k)%envEvery != 0 {
+						continue
+					}
+					importDir(d, e)
+				}
+			}
+			if b != 0 {
+				for _, d := range dirs[lo:hi] {
+					os.RemoveAll(filepath.Join(st.modDir, d.name))
+				}
+			}
+		})
+	})
+	c.Set("envs_with_goos_goarch_set_cover_every_nth_directory", envEvery)
+
+	// module-mode import by import path (go list resolves the directory; the
+	// working directory of the worker is the module root)
+	stage("import_by_path", func() {
+		nby := c.Pick(4, 24)
+		if nby > len(first) {
+			nby = len(first)
+		}
+		c.ParMap(nby, func(k int) {
+			d := first[k]
+			idx := []int{(k * 5) % len(usets), (k*5 + 7) % len(usets)}
+			sel := [][]string{usets[idx[0]], usets[idx[1]]}
+			for _, e := range []int{0, 2} {
+				res, err := st.pools[e].call(importJob{Path: "vp/" + d.name, SrcDir: st.modDir, TagSets: sel, Suffix: "min"})
+				if err != nil {
+					s.infra(err)
+					return
+				}
+				atomic.AddInt64(&s.calls, int64(len(res)))
+				c.Add("imports_by_path", len(res))
+				for x := range res {
+					s.compare(d, e, idx[x], res[x], "Import(\"vp/"+d.name+"\", moduleRoot, 0) in module mode")
+				}
+			}
+		})
+	})
+
+	// end to end: build and run, each selected file registers itself
+	stage("end_to_end", func() { s.endToEnd(pool, first, rand.New(rand.NewSource(c.Seed+1))) })
+
+	// real standard-library directories
+	stage("real_std", func() {
+		rs := <-realReady
+		realReady <- rs
+		if rs != nil {
+			s.realCompare(rs)
+		}
+	})
+	wg.Wait()
+	c.Phase("import_e2e_real")
+	if atomic.LoadInt32(&s.failed) != 0 {
+		return
+	}
+
+	c.Set("evaluations", int(s.evals))
+	c.Set("import_calls", int(s.calls))
+	c.Set("spec_guard_discards", int(s.disc))
+	c.Set("traces_validated_against_impl", int(s.evals))
+	c.Set("guard_constraint_evals", int(g.nC))
+	c.Set("guard_matchfile_evals", int(g.nM))
+	if s.disc > 0 {
+		fmt.Printf("note: %d evaluations discarded because a reference implementation of the standard library disagrees with the specification\n", s.disc)
+	}
+	keys := make([]string, 0, len(s.mism))
+	for k := range s.mism {
+		keys = append(keys, k)
+	}
+	sort.Strings(keys)
+	for _, k := range keys {
+		m := s.mism[k]
+		c.Report(core.Case{Keys: []string{k}, Summary: fmt.Sprintf("%s [%d evaluations in group %s]", m.summary, m.count, k), Files: m.files})
+	}
+	for k := 0; k < 5; k++ {
+		f := all[k*len(all)/5]
+		c.Sample(map[string]any{"file": f.Name, "constraint": f.X.Text, "when_selected": f.On, "when_not": f.Off,
+			"selected_mask_per_env": f.Masks, "envs": envs, "user_sets_bit_order": usets})
+	}
+}
+
+func isStemName(n string) bool {
+	switch n {
+	case "js.go", "linux.go", "wasm.go", "js_linux.go", "linux_js.go", "test.go":
+		return true
+	}
+	return false
+}
+
+func min(a, b int) int {
+	if a < b {
+		return a
+	}
+	return b
+}
+
+// replay re-decides one recorded scenario (scenario.json of a replay directory).
+func replay(c *core.Ctx, dir string) {
+	b, err := os.ReadFile(filepath.Join(dir, "scenario.json"))
+	if err != nil {
+		c.Infra(err)
+		return
+	}
+	var sc struct {
+		Env    envSpec           `json:"env"`
+		Tags   []string          `json:"tags"`
+		Dir    string            `json:"dir"`
+		Files  map[string]string `json:"files"`
+		Expect map[string]string `json:"expect"`
+		Real   string            `json:"real_package"`
+	}
+	if err := json.Unmarshal(b, &sc); err != nil {
+		c.Infra(err)
+		return
+	}
+	st, err := newSetup(c, 1)
+	if err != nil {
+		c.Infra(err)
+		return
+	}
+	defer st.close()
+	e := -1
+	for k := range envs {
+		if envs[k] == sc.Env {
+			e = k
+		}
+	}
+	if e < 0 {
+		c.Infra(fmt.Errorf("replay: unknown environment %+v", sc.Env))
+		return
+	}
+	var res []importResult
+	if sc.Real != "" {
+		res, err = st.pools[e&^1].call(importJob{Path: sc.Real, TagSets: [][]string{sc.Tags}})
+	} else {
+		p := filepath.Join(st.modDir, sc.Dir)
+		os.MkdirAll(p, 0o755)
+		for n, content := range sc.Files {
+			os.WriteFile(filepath.Join(p, n), []byte(content), 0o644)
+		}
+		j, _ := st.job(e, sc.Dir, [][]string{sc.Tags})
+		res, err = st.pools[e].call(j)
+	}
+	if err != nil {
+		c.Infra(err)
+		return
+	}
+	obs := observed(res[0])
+	var diff []string
+	for n, want := range sc.Expect {
+		got, ok := obs[n]
+		if !ok {
+			got = "none"
+		}
+		if got != want {
+			diff = append(diff, fmt.Sprintf("%s: expected %s, observed %s", n, want, got))
+		}
+	}
+	sort.Strings(diff)
+	c.Set("evaluations", len(sc.Expect))
+	if res[0].Err != "" {
+		diff = append(diff, "Import error: "+res[0].Err)
+	}
+	if len(diff) > 0 {
+		c.Report(core.Case{Keys: []string{"replay"}, Summary: "replay of " + dir + ": " + strings.Join(diff, "; "), Files: map[string]string{"scenario.json": string(b)}})
+	}
+}
